@@ -117,6 +117,10 @@ def discharge(ob, timeout_ms=20000, seed=0, both=False):
     # portfolio: z3 briefly, then cvc5 (far better on sequences), then z3 with the full budget
     first = min(int(timeout_ms), 2500)
     s.set('timeout', first)
+    if os.environ.get('PYVC_DUMP') and os.environ['PYVC_DUMP'] in ob.name:
+        # developer aid: keep the query of the obligations whose name contains $PYVC_DUMP
+        with open(f'/tmp/pyvc-dump-{os.getpid()}-{abs(hash(ob.name + str(len(ob.pc)))) % 100000}.smt2', 'w') as f_:
+            f_.write('; ' + ob.name + '\n' + s.to_smt2())
     r = s.check()
     smt2 = None
     if r == z3.unknown or both:
@@ -527,6 +531,10 @@ def model_value(model, v, heap, memo=None):
 
 
 def eval_term(model, t, kind):
+    from .values import ext_kind
+
+    if ext_kind(kind) is not None:
+        return ext_kind(kind).eval_term(model, t, kind, eval_term)
     if isinstance(kind, tuple) and kind[0] == 'opq':
         r = model.eval(t, model_completion=True)
         # an opaque object identity: rebuilt natively as a unique (truthy, hashable) token per id
